@@ -1,4 +1,6 @@
-(* Opt/ObjLangFacts.v — unfolding equations for the interpreter of Opt/ObjLang.v *)
+(* Opt/ObjLangFacts.v — unfolding equations for the interpreter of Opt/ObjLang.v and the tactic `obj_run`, which executes a
+   translated body symbolically, splitting on every condition it meets; the obligations of Tie/Tie_C03.v are closed by it, so they
+   survive any rewrite of the C++ bodies that stays inside the little language and computes the same function *)
 From Coq Require Import List Arith Bool ZArith.
 From Coq Require Import Init.Byte.
 From Nitro Require Import Base.Bytes Base.Res Opt.Token Opt.Decl Opt.ParserModel Opt.ObjLang.
@@ -10,33 +12,120 @@ Proof. reflexivity. Qed.
 Lemma exec_nil c s : exec c [] s = ONormal s.
 Proof. reflexivity. Qed.
 
+Lemma seq_is_exec c : forall l s0,
+  (fix seq (l : list stmt) (s : ostate) {struct l} : outcome :=
+     match l with [] => ONormal s | x :: r => match exec1 c x s with ONormal s' => seq r s' | o => o end end) l s0
+  = exec c l s0.
+Proof. induction l as [|x r IH]; intros s0; [reflexivity|]. cbn [exec]. destruct (exec1 c x s0); auto. Qed.
+
 Lemma exec1_if c b t e s :
   exec1 c (SIf b t e) s =
   match evalb c s b with XOk true => exec c t s | XOk false => exec c e s | XErr er => ORaise er | XStuck => OStuck end.
-Proof.
-  cbn [exec1].
-  assert (H : forall l s0, (fix seq (l : list stmt) (s : ostate) {struct l} : outcome :=
-                 match l with [] => ONormal s | x :: r => match exec1 c x s with ONormal s' => seq r s' | o => o end end) l s0
-              = exec c l s0).
-  { induction l as [|x r IH]; intros s0; [reflexivity|]. cbn [exec]. destruct (exec1 c x s0); auto. }
-  rewrite !H. reflexivity.
-Qed.
+Proof. cbn [exec1]. rewrite !seq_is_exec. reflexivity. Qed.
 
-Fixpoint each_exec (c : octx) (body : list stmt) (pieces : list str) (s : ostate) : outcome :=
-  match pieces with
-  | [] => ONormal s
-  | p :: r => match exec c body (set_elem s p) with ONormal s' => each_exec c body r s' | o => o end
-  end.
+Lemma each_gen_ext f g : (forall s, f s = g s) -> forall pieces s, each_gen f pieces s = each_gen g pieces s.
+Proof.
+  intros H. induction pieces as [|p r IH]; intros s; [reflexivity|].
+  cbn [each_gen]. rewrite H. destruct (g (set_elem s p)); auto.
+Qed.
 
 Lemma exec1_for c sep body s :
-  exec1 c (SForLines sep body) s = each_exec c body (getlines sep (q_envv s) [] false) s.
+  exec1 c (SForLines sep body) s = each_gen (exec c body) (getlines sep (q_envv s) [] false) s.
+Proof. cbn [exec1]. apply each_gen_ext. intros s0. apply seq_is_exec. Qed.
+
+(* the two loop bodies that push every piece and mark the object dirty *)
+Definition pushed (s : ostate) (pieces : list str) : ostate :=
+  {| q_val := q_val s; q_vec := q_vec s ++ pieces; q_given := q_given s;
+     q_dirty := match pieces with [] => q_dirty s | _ => true end;
+     q_envv := q_envv s; q_elem := last pieces (q_elem s) |}.
+
+Lemma ostate_eta s : {| q_val := q_val s; q_vec := q_vec s; q_given := q_given s; q_dirty := q_dirty s; q_envv := q_envv s; q_elem := q_elem s |} = s.
+Proof. destruct s; reflexivity. Qed.
+
+Lemma last_cons_irrel {A} (x : A) : forall l d1 d2, last (x :: l) d1 = last (x :: l) d2.
+Proof. intros l; revert x; induction l as [|y l IH]; intros x d1 d2; [reflexivity|]. cbn [last]. apply (IH y). Qed.
+
+Lemma each_push_dirty_first c : forall pieces s,
+  each_gen (exec c [SAssignDirty true; SVecPushElem]) pieces s = ONormal (pushed s pieces).
 Proof.
-  cbn [exec1].
-  assert (H : forall l s0, (fix seq (l : list stmt) (s : ostate) {struct l} : outcome :=
-                 match l with [] => ONormal s | x :: r => match exec1 c x s with ONormal s' => seq r s' | o => o end end) l s0
-              = exec c l s0).
-  { induction l as [|x r IH]; intros s0; [reflexivity|]. cbn [exec]. destruct (exec1 c x s0); auto. }
-  generalize (getlines sep (q_envv s) [] false) as pieces. intros pieces. revert s.
-  induction pieces as [|p r IH]; intros s; [reflexivity|].
-  cbn [each_exec]. rewrite H. destruct (exec c body (set_elem s p)); auto.
+  induction pieces as [|p r IH]; intros s.
+  - cbn. unfold pushed. cbn. rewrite app_nil_r, ostate_eta. reflexivity.
+  - cbn [each_gen]. cbn [exec exec1]. rewrite IH. unfold pushed. cbn. rewrite <- app_assoc. cbn.
+    destruct r as [|y r]; [reflexivity|]. rewrite (last_cons_irrel y r p (q_elem s)). reflexivity.
 Qed.
+
+Lemma each_push_dirty_last c : forall pieces s,
+  each_gen (exec c [SVecPushElem; SAssignDirty true]) pieces s = ONormal (pushed s pieces).
+Proof.
+  induction pieces as [|p r IH]; intros s.
+  - cbn. unfold pushed. cbn. rewrite app_nil_r, ostate_eta. reflexivity.
+  - cbn [each_gen]. cbn [exec exec1]. rewrite IH. unfold pushed. cbn. rewrite <- app_assoc. cbn.
+    destruct r as [|y r]; [reflexivity|]. rewrite (last_cons_irrel y r p (q_elem s)). reflexivity.
+Qed.
+
+Lemma env_get_no_env c : has_env_b c = false -> env_get (x_getenv c) (x_env c) = [].
+Proof. unfold has_env_b, env_get. destruct (x_env c) as [[|b n]|]; [reflexivity | discriminate | reflexivity]. Qed.
+
+Lemma getlines_nonempty sep : forall s cur started, (started = true \/ s <> []) -> getlines sep s cur started <> [].
+Proof.
+  induction s as [|ch r IH]; intros cur started H; cbn.
+  - destruct H as [->|H]; [discriminate | congruence].
+  - destruct (beq ch sep); [discriminate|]. apply IH. left. reflexivity.
+Qed.
+
+Lemma getlines_of_nonempty sep ev : nonempty ev = true -> getlines sep ev [] false <> [].
+Proof. intros H. apply getlines_nonempty. right. destruct ev; [discriminate H | discriminate]. Qed.
+
+(* ---- symbolic execution ---- *)
+Ltac obj_atom x :=
+  lazymatch x with
+  | negb ?y => obj_atom y
+  | andb ?y _ => obj_atom y
+  | orb ?y _ => obj_atom y
+  | _ => x
+  end.
+
+Ltac obj_split :=
+  match goal with
+  | |- context [match ?x with _ => _ end] =>
+      lazymatch x with
+      | context [match _ with _ => _ end] => fail
+      | _ => let a := obj_atom x in destruct a eqn:?
+      end
+  end.
+
+Ltac obj_rew :=
+  repeat match goal with
+         | H : q_val _ = _ |- _ => rewrite H
+         | H : q_vec _ = _ |- _ => rewrite H
+         | H : q_dirty _ = _ |- _ => rewrite H
+         | H : q_given _ = _ |- _ => rewrite H
+         end.
+
+Ltac obj_close :=
+  first
+    [ reflexivity
+    | congruence
+    | progress obj_rew; cbn; first [reflexivity | congruence]
+    | exfalso; match goal with
+        | Hn : nonempty ?ev = true, Hg : getlines ?sep ?ev [] false = [] |- _ => exact (getlines_of_nonempty sep ev Hn Hg)
+        end
+    | match goal with
+      | He : has_env_b ?c = false |- _ => rewrite (env_get_no_env c He) in *; cbn in *; first [reflexivity | congruence]
+      end ].
+
+Ltac obj_step :=
+  first
+    [ rewrite exec_nil | rewrite exec_cons | rewrite exec1_if | rewrite exec1_for
+    | rewrite each_push_dirty_first | rewrite each_push_dirty_last
+    | progress cbn [exec1 evalb view of_res negb andb orb
+                    ost_of mst_of tst_of odecl_of mdecl_of tdecl_of pushed
+                    set_val set_vec set_given set_dirty set_envv set_elem
+                    q_val q_vec q_given q_dirty q_envv q_elem
+                    os_val os_dirty ms_val ms_dirty ts_given ts_dirty
+                    o_name o_short o_env o_def o_opt m_name m_short m_env m_def m_opt t_name t_short t_env t_def t_rev
+                    bind app]
+    | progress unfold ost_of, mst_of, tst_of, pushed
+    | obj_split ].
+
+Ltac obj_run := repeat obj_step; try obj_close.
